@@ -47,6 +47,20 @@ pub fn mlar_s(args: &[&str], cwd: &Path) -> std::io::Result<Output> {
     Command::new(mlar_path()).args(args).current_dir(cwd).stdin(Stdio::null()).output()
 }
 
+/// mlar with `input` on its standard input
+pub fn mlar_stdin(args: &[&str], cwd: &Path, input: &[u8]) -> std::io::Result<Output> {
+    use std::io::Write;
+    let mut child = Command::new(mlar_path()).args(args).current_dir(cwd).stdin(Stdio::piped()).stdout(Stdio::piped()).stderr(Stdio::piped()).spawn()?;
+    let mut stdin = child.stdin.take().unwrap();
+    let data = input.to_vec();
+    let feeder = std::thread::spawn(move || {
+        let _ = stdin.write_all(&data);
+    });
+    let o = child.wait_with_output();
+    let _ = feeder.join();
+    o
+}
+
 /// mlar with its standard error connected to a device that refuses every write (/dev/full: ENOSPC)
 pub fn mlar_stderr_full(args: &[&str], cwd: &Path) -> std::io::Result<Output> {
     let full = std::fs::OpenOptions::new().write(true).open("/dev/full")?;
